@@ -125,9 +125,11 @@ theorem closeStep_dec (s s' : SSys) (k : Bool) (c c' : CPc) (h : closeStep s k c
     simp at h; obtain ⟨rfl, rfl⟩ := h
     simp [cpcW, da1W]; split <;> omega
   · -- checkSuspended
-    split at h <;> simp at h <;> obtain ⟨rfl, rfl⟩ := h
-    · cases k <;> simp [afterSuspend, cpcW, da1W]
-    · cases hb : s.da1First <;> simp [afterGuard, cpcW, da1W, hb]
+    split at h
+    · simp at h
+    · split at h <;> simp at h <;> obtain ⟨rfl, rfl⟩ := h
+      · cases k <;> simp [afterSuspend, cpcW, da1W]
+      · cases hb : s.da1First <;> simp [afterGuard, cpcW, da1W, hb]
   · -- signalClose
     split at h
     · simp at h; obtain ⟨rfl, rfl⟩ := h
